@@ -130,7 +130,10 @@ def r1_wiring(P, rep, ctx):
                 good.append((t, lab))
         bad = o.neg(good)
         raises_te = any(isinstance(g.nodes[x].stmt, ast.Raise) and "TypeError" in o.x_at(x, g.nodes[x].stmt.exc) for x in g.reach(o.heads(bad)) | set(o.heads(bad))) if bad else False
-        ok = bool(good) and o.refuses(bad) and raises_te and o.hit_before(L, nodes=o.test_nodes(good), src_edge=(L, "iter")) and o.hit_before(g.exit, nodes=[L])
+        # a field that passes the test does not end the examination of the others: from the passing edge the normal exit is
+        # only reached through the loop head again
+        carries_on = all(o.hit_before(g.exit, nodes=[L], src_edge=e) for e in good)
+        ok = bool(good) and o.refuses(bad) and raises_te and o.hit_before(L, nodes=o.test_nodes(good), src_edge=(L, "iter")) and o.hit_before(g.exit, nodes=[L]) and carries_on
     rep.check(ok, "C13.R1", ov.qual, "an undeclared override that is not a subtype raises TypeError", ov.loc(), construct="override refusal", message="check_overrides does not raise TypeError for an undeclared override whose type is not a subtype of the inherited one")
     rep.check(len(loops) == 1, "C13.R1", ov.qual,
               "every actual, undeclared override is compared with the inherited hint", ov.loc(), construct="override iteration", message="check_overrides does not iterate over all actual overrides that are not declared with @override")
